@@ -8,7 +8,9 @@ CONSTANTS
   MaxIgnores = 1
   MaxDiff = 1
   FixS1 = TRUE
+  FixQ1 = TRUE
+  Quoted <- MCQuoted
   AnyOrder = TRUE
 INIT Init
 NEXT Next
-INVARIANTS TypeOK ExaminedIsExpected S1IsTheOnlyGap NothingOutsideTree Emit
+INVARIANTS TypeOK ExaminedIsExpected Q1IsTheOnlyGap S1IsTheOnlyGap NothingOutsideTree Emit
